@@ -307,3 +307,11 @@ def r6(ctx):
     if n < 3:
         raise AnchorMissing('CharString::new sites of operations()/repair() (found %d)' % n)
     c11.r1(ctx)
+
+
+@rule('C10', 'R-C10-7', 'prerequisite (the segmentation primitive)',
+      'CharString::new segments by graphemes(true) / chars() selected by the flag alone and keeps byte lengths at full width '
+      '(R-C11-6 re-evaluated): every index, length and range of this property is counted in its characters')
+def r_charstring(ctx):
+    from rules import c11
+    c11.charstring_primitive(ctx)
